@@ -5,6 +5,7 @@ package main
 
 import (
 	"fmt"
+	"os"
 	"strings"
 	"sync"
 	"time"
@@ -123,7 +124,9 @@ func (w *world) totals() (reqs, bytes int64) {
 }
 
 func newWorld() (*world, error) {
-	e2e.Quiet()
+	if os.Getenv("C04_LOG") == "" {
+		e2e.Quiet()
+	}
 	w := &world{ups: map[string]*e2e.Upstream{}, scripts: map[string]*script{}, seen: map[string][]*e2e.Seen{}}
 	tokens := map[string]user.Info{
 		tokenAlice: &user.DefaultInfo{Name: "alice", Groups: []string{"dev", user.AllAuthenticated}},
